@@ -18,6 +18,9 @@ pub use self::value::{FieldValue, TransparentValue};
 
 mod indexed;
 mod types;
+#[cfg(feature = "__verif")]
+#[doc(hidden)]
+pub mod verif_hooks;
 pub mod value;
 
 pub(crate) const TYPENAME_META_FIELD: &str = "__typename";
